@@ -32,9 +32,12 @@ DOCS = {"da": DA, "db": DB}
 def _replay_many(items):
     jp = core.import_repo()
     out = []
+    # compiled queries and environments live across schedules: an iterator abandoned in one schedule
+    # must not leave anything behind for the iterators of the next one
+    envs = {"e1": jp.JSONPathEnvironment(), "e2": jp.JSONPathEnvironment(), "m": jp.DEFAULT_ENV}
+    compiled = {}
+    solos = {}
     for g in items:
-        envs = {"e1": jp.JSONPathEnvironment(), "e2": jp.JSONPathEnvironment(), "m": jp.DEFAULT_ENV}
-        compiled = {}
         iters = []
         for ident in g["cfg"]:
             qn, dn, via = ident.split("_")
@@ -61,6 +64,20 @@ def _replay_many(items):
             if got != st["item"]:
                 bad = {"at": k, "iterator": st["it"], "expected": st["item"], "observed": got}
                 break
+        if bad is None:
+            # after the schedule (abandoned iterators dropped and collected), a fresh iterator of each
+            # compiled query still yields its solitary sequence
+            iters = None          # drops (and thereby closes) every abandoned generator
+            for ident, c in compiled.items():
+                qn, dn, _via = ident.split("_")
+                fresh = [core.enc_loc(n.location) for n in c.finditer(DOCS[dn])]
+                if (qn, dn) not in solos:
+                    solos[(qn, dn)] = [core.enc_loc(n.location) for n in jp.JSONPathEnvironment().find(QUERIES[qn], DOCS[dn])]
+                solo = solos[(qn, dn)]
+                if fresh != solo:
+                    bad = {"at": len(g["sched"]), "iterator": ident, "expected": solo, "observed": fresh,
+                           "note": "a fresh iterator after the schedule differs from a solitary run"}
+                    break
         out.append(bad)
     return out
 
@@ -218,7 +235,8 @@ def run(chk: core.Check, tier: str, seed: int) -> None:
         chk.evaluations += 1
         chk.nontrivial.add((tuple(g["cfg"]), tuple((s["it"], s["act"]) for s in g["sched"])))
         if bad:
-            chk.violation({"clause": "iterator yielded a different item than its solitary run", "iterator_kind": g["cfg"][bad["iterator"] - 1]},
+            chk.violation({"clause": "iterator yielded a different item than its solitary run",
+                           "iterator_kind": g["cfg"][bad["iterator"] - 1] if isinstance(bad["iterator"], int) else bad["iterator"]},
                           {"config": g["cfg"], "schedule": [(s["it"], s["act"]) for s in g["sched"]], "failure": bad,
                            "queries": QUERIES})
     chk.traces += len(gens)
